@@ -130,6 +130,10 @@ def spaces(tier, seed):
                             mfi.append({"kind": "mfi", "rows": rows, "cols": cols, "fs": fs, "reg": reg,
                                         "named": named, "mask": mk, "win": win, "seed": seed})
     mfi += [dict(c, prime_fs=8 - c["fs"]) for c in mfi if (c["rows"], c["cols"]) in ((7, 8), (12, 9))]
+    # the filter placed after a cross-checking validation: occlusions and mismatches are invalid pixels that still
+    # carry finite interval bounds (before a validation, invalid pixels only hold NaN bounds)
+    mfi += [dict(c, val=True) for c in mfi if (c["rows"], c["cols"]) in ((7, 8), (12, 9), (103, 12))
+            and not c.get("prime_fs")]
     mach = []
     for (rows, cols) in [(6, 7), (9, 8), (52, 9)] if quick else [(6, 7), (9, 8), (52, 9), (8, 103), (51, 52)]:
         for m, c in [("median", {"filter_size": 3}), ("median", {"filter_size": 5}),
@@ -548,6 +552,8 @@ def run_mfi(case):
         # the second confidence step is necessarily suffixed; its suffix is the interval indicator
         fcfg["interval_indicator"] = "1"
     pipe["disparity"] = dict(P.WTA)
+    if case.get("val"):
+        pipe["validation"] = dict(P.CROSS)
     pipe["filter"] = fcfg
     obs = P.run_observed(dl, dr, pipe, snapshot=("disp",))
     if obs.error:
@@ -573,7 +579,8 @@ def run_mfi(case):
                      "detail": f"{ctx}: the filter step of the machine and the direct call on the same dataset differ"})
     inv = (before["vm"] & INVALID_MASK) != 0
     nontrivial = bool(inv.any() and (~inv).any() and (case["reg"] or stats.get("changed")))
-    sigs = [f"mfi|{case['fs']}|{case['reg']}|{named}|{case.get('prime_fs')}|{_digest(after['conf'], after['vm'])}"] \
+    sigs = [f"mfi|{case['fs']}|{case['reg']}|{named}|{case.get('prime_fs')}|{case.get('val')}|"
+            f"{_digest(after['conf'], after['vm'])}"] \
         if nontrivial else []
     return {"n": 2, "sigs": sigs, "viol": _dedup(viol), "trivial": 0 if nontrivial else 2}
 
